@@ -2,6 +2,8 @@
    Statements only; proofs are in Proofs/LexerTile.v.  Quantification is over every text. *)
 From Coq Require Import List NArith Bool String.
 From Verif Require Import Base.Text Gen.GenPipeline Gen.GenTokens Model.Lexer Proofs.LexerTile Proofs.GenObligations.
+From Coq Require ZArith.
+From Verif Require Gen.GenRules Gen.GenDeclRules Model.Analyzer Proofs.AnalyzerProofs Model.DeclRules Proofs.DeclRulesProofs Proofs.DeclRulesGen.
 Import ListNotations.
 Open Scope N_scope.
 
@@ -78,3 +80,40 @@ Example C05_example :
   map (fun i => (item_start i, item_lc i)) (lex_items (preprocess t))
   = [(0, (0, 0)); (7, (0, 7)); (8, (0, 8)); (9, (0, 9)); (10, (0, 10))].
 Proof. vm_compute. reflexivity. Qed.
+
+(* the labels of the rules on type declarations (Model/DeclRules.v; compared label by label with the analyzer's on every run).
+   P0003: the primary label is the structure's name; "First use of name" is the identifier of the FIRST element of that name --
+   no element before it has the name --, "Second use of name" the identifier of a later element of the same name. *)
+Theorem C05_struct_labels : forall fs d, In d (DeclRules.rule_struct_unique fs) ->
+  exists nm a f b x c, In (DeclRules.TyStruct nm (a ++ f :: b ++ x :: c)) fs /\ DeclRules.ikey f = DeclRules.ikey x /\
+    (forall y, In y a -> DeclRules.ikey y <> DeclRules.ikey x) /\
+    DeclRules.ld_code d = GenRules.P_StructureDuplicatedElement /\ DeclRules.ld_primary d = nm /\
+    DeclRules.ld_secondary d = [DeclRules.i_id f; DeclRules.i_id x].
+Proof. exact DeclRulesProofs.struct_labels. Qed.
+
+(* P0005: "First instance" is the first value of that name, "Duplicate value" a later one *)
+Theorem C05_enum_labels : forall fs d, In d (DeclRules.rule_enum_unique fs) ->
+  exists a f b x c, In (DeclRules.TyEnum (a ++ f :: b ++ x :: c)) fs /\ DeclRules.ikey f = DeclRules.ikey x /\
+    (forall y, In y a -> DeclRules.ikey y <> DeclRules.ikey x) /\
+    DeclRules.ld_code d = GenRules.P_EnumTypeDeclDuplicateItem /\ DeclRules.ld_primary d = DeclRules.i_id f /\
+    DeclRules.ld_secondary d = [DeclRules.i_node x].
+Proof. exact DeclRulesProofs.enum_labels. Qed.
+
+(* P0004: "Expected smaller value" is the minimum, "Expected greater value" the maximum of a subrange whose minimum is not below
+   its maximum *)
+Theorem C05_subrange_labels : forall fs d, In d (DeclRules.rule_subrange_limits fs) ->
+  exists lo hi ls hs, In (DeclRules.TySub lo hi ls hs) fs /\ (ZArith.BinInt.Z.le (AnalyzerProofs.sval hi) (AnalyzerProofs.sval lo)) /\
+    DeclRules.ld_code d = GenRules.P_SubrangeMinStrictlyLessMax /\ DeclRules.ld_primary d = ls /\ DeclRules.ld_secondary d = [hs].
+Proof. exact DeclRulesProofs.sub_labels. Qed.
+
+(* the models of these three rules are the source's: the tables regenerated from the rule files on every run (set operations of
+   the scans, what each label is put on, the arms of the subrange comparison) are the ones the models were read off *)
+Theorem C05_declaration_rule_models_are_the_source :
+  GenDeclRules.gen_struct_scan = (["get"; "insert"]%string, "name"%string, "StructureDuplicatedElement"%string,
+                     DeclRulesGen.place_name "name"%string (fst DeclRulesGen.struct_places), map (DeclRulesGen.place_name "name"%string) (snd DeclRulesGen.struct_places)) /\
+  GenDeclRules.gen_enum_scan = (["get"; "insert"]%string, "value"%string, "EnumTypeDeclDuplicateItem"%string,
+                   DeclRulesGen.place_name "value"%string (fst DeclRulesGen.enum_places), map (DeclRulesGen.place_name "value"%string) (snd DeclRulesGen.enum_places)) /\
+  GenDeclRules.gen_sub_signed = "v.is_neg && v.value.value != 0, v.value.value"%string /\
+  GenDeclRules.gen_sub_arms = DeclRulesGen.model_sub_arms /\
+  GenDeclRules.gen_sub_labels = ("SubrangeMinStrictlyLessMax"%string, "node.start.value"%string, ["node.end.value"]%string).
+Proof. exact DeclRulesGen.model_is_the_source. Qed.
